@@ -232,7 +232,7 @@ def run_retry(case):
     scheds = [None] if W == 0 else list(schedules(N, W))
     faults = [()] + [(k,) for k in range(N)]
     if case["dev"] >= 2:
-        faults += [(k, k2) for k in range(N + 1) for k2 in range(k + 1, N + 2)]
+        faults += [(k, k2) for k in range(N) for k2 in range(k + 1, N + 1)]  # every placement of two refusals that are both reached
     nexec = nsims = 0
     for sched in scheds:
         for fault in faults:
@@ -242,8 +242,11 @@ def run_retry(case):
             nexec += 1
             nsims += inj.k
             lab = f"{variant} {entry} N={N} " + ("serial" if W == 0 else f"W={W} schedule={list(sched)}") + f" prior={case['prior']} refused attempts {list(fault)}"
-            if inj.k != N + len(fault):
-                vs.append(V("retry-count", f"{lab}: {inj.k} simulation attempts for {N} samples and {len(fault)} refusals", None))
+            hits = 0
+            for f_ in sorted(fault):
+                hits += int(f_ < N + hits)  # a refusal placed beyond the last attempt is never reached
+            if inj.k != N + hits:
+                vs.append(V("retry-count", f"{lab}: {inj.k} simulation attempts for {N} samples and {hits} refusals", None))
             if len(ds) != N:
                 vs.append(V("wrong-number-of-samples", f"{lab}: {len(ds)} samples returned", None))
             if len(set(ds)) < len(ds):
